@@ -130,10 +130,35 @@ impl<M: Math, A: MassMatrixAdaptStrategy<M>> AdaptStrategy<M> for GlobalStrategy
     ) -> Result<(), NutsError> {
         self.step_size.update(&collector.collector1);
 
+        #[cfg(nuts_rs_verif)]
+        macro_rules! verif_adapt {
+            ($branch:expr, $switched:expr, $changed:expr, $research:expr, $fed:expr) => {
+                crate::verif::emit("adapt", || {
+                    crate::verif::json!({"ev": "adapt", "kind": "global", "draw": draw,
+                        "branch": $branch, "switched": $switched, "changed": $changed,
+                        "research": $research, "fed": $fed,
+                        "fg": self.mass_matrix_adapt.current_count(),
+                        "bg": self.mass_matrix_adapt.background_count(),
+                        "win": self.current_window_size, "last_update": self.last_update,
+                        "has_initial": self.has_initial_mass_matrix,
+                        "tid": crate::transform::Transformation::transformation_id(
+                            hamiltonian.transformation(), math),
+                        "tuning": self.tuning, "num_tune": self.num_tune,
+                        "early_end": self.early_end, "final_window": self.final_step_size_window,
+                        "early_freq": self.options.early_mass_matrix_switch_freq,
+                        "main_freq": self.options.mass_matrix_switch_freq,
+                        "upd_freq": self.options.mass_matrix_update_freq,
+                        "growth": self.options.mass_matrix_window_growth,
+                        "step": crate::verif::bits(hamiltonian.step_size())})
+                });
+            };
+        }
         if draw >= self.num_tune {
             // Needed for step size jitter
             self.step_size.update_stepsize(rng, hamiltonian, true);
             self.tuning = false;
+            #[cfg(nuts_rs_verif)]
+            verif_adapt!("post", false, false, false, "none");
             return Ok(());
         }
 
@@ -203,6 +228,8 @@ impl<M: Math, A: MassMatrixAdaptStrategy<M>> AdaptStrategy<M> for GlobalStrategy
                 self.step_size.update_estimator_early();
             }
 
+            #[cfg(nuts_rs_verif)]
+            let verif_research = did_change & self.has_initial_mass_matrix;
             // First time we change the mass matrix
             if did_change & self.has_initial_mass_matrix {
                 self.has_initial_mass_matrix = false;
@@ -212,12 +239,17 @@ impl<M: Math, A: MassMatrixAdaptStrategy<M>> AdaptStrategy<M> for GlobalStrategy
             } else {
                 self.step_size.update_stepsize(rng, hamiltonian, false)
             }
+            #[cfg(nuts_rs_verif)]
+            verif_adapt!("mass", force_update, did_change, verif_research,
+                if is_late { "late" } else { "early" });
             return Ok(());
         }
 
         self.step_size.update_estimator_late();
         let is_last = draw == self.num_tune - 1;
         self.step_size.update_stepsize(rng, hamiltonian, is_last);
+        #[cfg(nuts_rs_verif)]
+        verif_adapt!("final", false, false, false, "late");
         Ok(())
     }
 
